@@ -84,10 +84,17 @@ Theorem C03_elastic_sandwell_wessel : forall dx dy nu, dx <> 0 \/ dy <> 0 ->
 Proof. exact elastic_sandwell_wessel. Qed.
 Print Assumptions C03_elastic_sandwell_wessel.
 
-(** a positive mindist keeps ln's argument and the denominator positive - also for coincident points *)
+(** a positive mindist keeps ln's argument and the divisor positive - also for coincident points *)
 Theorem C03_elastic_defined : forall dx dy md, 0 < md -> 0 < dist dx dy md /\ 0 < dist dx dy md ^ 2.
 Proof. exact elastic_defined. Qed.
 Print Assumptions C03_elastic_defined.
+
+(** the code divides the coordinate differences by the distance: ratios bounded by 1, so no
+    intermediate overflows however small the (positive) distance or mindist is *)
+Theorem C03_elastic_ratio_bounded : forall dx dy md, 0 <= md -> 0 < dist dx dy md ->
+  Rabs (dx / dist dx dy md) <= 1 /\ Rabs (dy / dist dx dy md) <= 1.
+Proof. exact elastic_ratio_bounded. Qed.
+Print Assumptions C03_elastic_ratio_bounded.
 
 Theorem C03_elastic_coincident : forall md nu, 0 < md ->
   g_ee 0 0 md nu = (3 - nu) * ln md /\ g_nn 0 0 md nu = (3 - nu) * ln md /\ g_ne 0 0 md nu = 0.
